@@ -2,6 +2,7 @@ import H2T.Lemmas.FitsBlock
 import H2T.Lemmas.ConserveTree
 import H2T.Lemmas.ConserveTableTree
 import H2T.Lemmas.TagText
+import H2T.Lemmas.TagTextTable
 import H2T.Lemmas.ConserveTableExact
 import H2T.Lemmas.DomFactor
 import H2T.Props.C15
@@ -225,5 +226,30 @@ example :
     ((renderTree { footnotes := false } Deco.plain 9 tree).toOption.map fun ls => ((ls.flatMap rink).filter richAlpha).map (·.cp)) =
       some ((nodeRaw Deco.plain tree).filter richAlpha |>.map (·.cp)) ∧
     ((nodeRaw Deco.plain tree).filter richAlpha).map (·.cp) = [97, 98, 99, 100, 91, 101, 102, 93, 103, 104, 105, 106] := by decide +kernel
+
+/-! ## nothing invented under the stock decorators, tables included -/
+
+/-- **nothing is invented or duplicated — every render tree, decorators with visible prefixes**: for every decorator,
+    every alphabet `P` its block prefixes avoid and every character `c` in `P` that is not box-drawing: `c` occurs in the
+    rendered lines at most as often as in the tree's texts (tables, nested tables, stacked rows included; footnotes off, no
+    Unicode strikeout).  `no_character_invented` above needs whitespace prefixes; this one covers `* `, `> `, `# `, `1. `. -/
+theorem no_character_invented_visible_prefixes (P : Ch → Bool) (c : Ch) (hcb : isBox c = false) (hcP : P c = true) (cfg : Cfg)
+    (d : Deco) (w : Nat) (tree : RNode) (ls : List RLine) (hfn : cfg.footnotes = false) (hu : cfg.unicodeStrike = false)
+    (hd : DecoAvoids P d) (h : renderTree cfg d w tree = .ok ls) : (ls.flatMap rink).count c ≤ (nodeRaw d tree).count c :=
+  renderTree_chars_le_raw P c hcb hcP cfg d w tree ls hfn hu hd h
+
+/-- the plain decorator (`from_read`): every character other than `#`, `>`, `*`, `-`, `.`, the digits and box-drawing ones -/
+theorem plain_no_character_invented (c : Ch) (hcb : isBox c = false) (hcP : richAlpha c = true) (cfg : Cfg) (w : Nat)
+    (tree : RNode) (ls : List RLine) (hfn : cfg.footnotes = false) (hu : cfg.unicodeStrike = false)
+    (h : renderTree cfg Deco.plain w tree = .ok ls) : (ls.flatMap rink).count c ≤ (nodeRaw Deco.plain tree).count c :=
+  renderTree_chars_le_raw richAlpha c hcb hcP cfg Deco.plain w tree ls hfn hu plain_avoids h
+
+/-- non-vacuity: a table holding a list and a quoted paragraph, plain decorator, width 14: the letter `a` (code 97) occurs
+    twice in the tree and twice in the output -/
+example :
+    let tree : RNode := .table {} [.row {} [.cell {} 1 [.box {} .ul [.box {} .li [.text {} (strCh "ab")], .box {} .li [.text {} (strCh "ca")]]],
+                                          .cell {} 1 [.box {} .quote [.box {} .block [.text {} (strCh "de fg")]]]]] 2
+    ((renderTree { footnotes := false } Deco.plain 14 tree).toOption.map fun ls => (ls.flatMap rink).count (mkCh 97)) = some 2 ∧
+    (nodeRaw Deco.plain tree).count (mkCh 97) = 2 ∧ isBox (mkCh 97) = false ∧ richAlpha (mkCh 97) = true := by decide +kernel
 
 end H2T.C03
